@@ -667,10 +667,30 @@ func runShard(t *testing.T, tk []string) string {
 	if kd.fam == "txn" {
 		badCode = kerr.TransactionalIDAuthorizationFailed
 	}
+	// leaderless partitions (a quarter of the topic-partition scenarios): one or two requested, existing partitions
+	// are shown to the client as LEADER_NOT_AVAILABLE in every Metadata response (the brokers keep their state), so
+	// that a request can hold items that fail mapping with two DIFFERENT errors (with an unknown topic / partition)
+	leaderless := map[string]bool{}
+	outage := &sim.LeaderOutage{}
+	if kd.fam == "tp" && seed%4 == 1 {
+		for _, it := range distinct {
+			tn, p := tpSplit(it)
+			if len(leaderless) < 2 && cluster.LeaderFor(tn, p) >= 0 && rng.Chance(50) {
+				leaderless[it] = true
+				outage.Set(tn, p, true)
+			}
+		}
+		if len(leaderless) > 0 {
+			hx.St.Inc("scen.shard.leaderless-partitions")
+		}
+	}
 	destOf := func(it string) string {
 		switch kd.fam {
 		case "tp":
 			tn, p := tpSplit(it)
+			if leaderless[it] {
+				return "E" + kerr.LeaderNotAvailable.Message
+			}
 			if n := cluster.LeaderFor(tn, p); n >= 0 {
 				return strconv.Itoa(int(n))
 			}
@@ -776,6 +796,9 @@ func runShard(t *testing.T, tk []string) string {
 			frames++
 		}
 		vmu.Unlock()
+	}
+	if len(leaderless) > 0 {
+		outage.Install(net)
 	}
 	cluster.ControlKey(kd.key, func(kreq kmsg.Request) (kmsg.Response, error, bool) {
 		cluster.KeepControl()
